@@ -277,6 +277,30 @@ def run(ctx) -> None:
             _check_r5(ctx, p, arm, rel)
     ctx.floor('R2', n_out, 21, 'assigned outputs over all paths')
     ctx.analysed['assigned_outputs'] = n_out
+    ctx.rule('R10', 'every levelized-cost line of the text report prints the output of the economics object whose Calculate computed it last '
+                    '(model.economics), and nothing else calls CalculateLCOELCOHLCOC on that object from another model part')
+    from gxstat.report import writer_templates as _wt
+    n10 = 0
+    for t in _wt(ctx.repo, only=['Outputs', 'OutputsAddOns']):
+        for v in t.values():
+            if v.obj and v.obj.split('.')[-1] in ('LCOE', 'LCOH', 'LCOC') and not t.loops:
+                n10 += 1
+                ctx.check(v.obj.startswith('model.economics.'), 'R10', f'{t.fn.cls.name}/{(t.label or "line")[:50]}/prints-model.economics.{v.obj.split(".")[-1]}', t.where,
+                          f'the line prints {v.obj}: the levelized cost the report states is not the one Economics.Calculate computed last from '
+                          f'the final series (add-on / other objects hold snapshots or never-populated copies)', fact=v.obj)
+    ctx.floor('R10', n10, 6, 'levelized-cost values in the text report')
+    for g, st in sites:
+        recv = st.value.args[0] if st.value.args else None
+        ctx.check(recv is not None and norm(recv) == 'self', 'R10', f'{g.qualname}/levelized-cost-of-own-object', f'{g.module.rel}:{st.lineno}',
+                  f'`{norm(st.value)[:80]}` computes the levelized costs of another object ({norm(recv) if recv is not None else "?"}) in the middle of '
+                  f'that object\'s own calculation: the result is a snapshot taken before the series are final', fact='CalculateLCOELCOHLCOC(self, model)')
+    ctx.rule('R9', 'the levelized-cost rows of the rich/HTML report print the levelized cost their label names (C09 W2 on those rows)')
+    from gxstat.report import writer_templates
+    from gxstat.runner import Renamed
+    from rules.c09 import check_sibling
+    check_sibling(Renamed(ctx, {'W2': 'R9'}, key_filter=lambda k: any(x in k for x in ('LCOE', 'LCOH', 'LCOC', 'breakeven price'))),
+                  writer_templates(ctx.repo, only=['Outputs']))
+    ctx.floor('R9', sum(1 for o in ctx.obligations if o['rule'] == 'R9'), 4, 'levelized-cost rows shared by the two writers')
     ctx.rule('R8', "the discount rate the levelized cost uses is the synchronised one: conversions store a number in the target's own unit, no stale copies (shared)")
     from rules.rate_sync import check_rate_sync
     _n = check_rate_sync(ctx, 'R8', only_functions={'sync_interest_rate'})
